@@ -16,7 +16,8 @@ BOUNDS = {
              "x every operation of the relation's alphabet (child-side assignment, add/discard/remove/pop/clear/update(1,2 iterables)/|= -= &= ^=, constructors with "
              "parent= and children=; list: append/insert/extend/+=/del/slice del/item and slice assignment/remove/pop/reverse/clear) = 23 841 scenarios; "
              "equal-UUID twin IRs; argument aliasing; K = 2 slices: (module list) an inserting operation then any operation; (set relations) a parent-side insertion "
-             "(add, |=, update, ^=) then any operation, from 9 pre-state shapes",
+             "(add, |=, update, ^=) then any operation, from 9 pre-state shapes; cross-relation sequences: one of 22 subtree moves at any level, "
+             "then one (thorough: two) of 20 attach/detach operations below it, on a fixed two-IR world",
     "thorough": "as quick plus every pair of operations (K = 2) for the set relations on a reduced shape set",
 }
 
